@@ -329,14 +329,14 @@ theorem touch_this (f : Evm.Frame) (off n : Nat) : (f.touch off n).this = f.this
   unfold Evm.Frame.touch; split <;> rfl
 theorem touch_calldata (f : Evm.Frame) (off n : Nat) : (f.touch off n).calldata = f.calldata := by
   unfold Evm.Frame.touch; split <;> rfl
+theorem touch_isStatic (f : Evm.Frame) (off n : Nat) : (f.touch off n).isStatic = f.isStatic := by
+  unfold Evm.Frame.touch; split <;> rfl
+theorem touch_returndata (f : Evm.Frame) (off n : Nat) : (f.touch off n).returndata = f.returndata := by
+  unfold Evm.Frame.touch; split <;> rfl
 theorem touch_mem (f : Evm.Frame) (off n : Nat) : (f.touch off n).mem = f.mem := by
   unfold Evm.Frame.touch; split <;> rfl
 theorem touch_pc (f : Evm.Frame) (off n : Nat) : (f.touch off n).pc = f.pc := by
   unfold Evm.Frame.touch; split <;> rfl
-
-/-- what a core step leaves alone -/
-def SameCtx (f' f : Evm.Frame) : Prop :=
-  f'.code = f.code ∧ f'.caller = f.caller ∧ f'.value = f.value ∧ f'.this = f.this ∧ f'.calldata = f.calldata
 
 theorem memOk_of_le {p : Evm.Params} {off n : Nat} (h : off + n ≤ p.memLimit) : Evm.memOk p off n = true := by
   simp [Evm.memOk, h]
@@ -347,7 +347,7 @@ theorem evm_mload (hop : (f.code[f.pc]?).getD 0 = 0x51) (hl : ¬ f.stack.length 
       f'.stack = Evm.bytesToNat (Evm.readBytes f.mem off 32) :: s := by
   unfold Evm.step; simp only [hop, hl, ↓reduceIte]
   simp only [hst, memOk_of_le hok, Bool.not_true, Bool.false_eq_true, ↓reduceIte]
-  exact ⟨_, rfl, ⟨touch_code .., touch_caller .., touch_value .., touch_this .., touch_calldata ..⟩,
+  exact ⟨_, rfl, ⟨touch_code .., touch_caller .., touch_value .., touch_this .., touch_calldata .., touch_isStatic .., touch_returndata ..⟩,
     by simp only [touch_pc], by simp only [touch_mem], by simp only [touch_mem]⟩
 
 theorem evm_mstore (hop : (f.code[f.pc]?).getD 0 = 0x52) (hl : ¬ f.stack.length > 1024) {off v s}
@@ -356,7 +356,7 @@ theorem evm_mstore (hop : (f.code[f.pc]?).getD 0 = 0x52) (hl : ¬ f.stack.length
       f'.mem = Evm.writeBytes f.mem off (Evm.natToBytes 32 v) := by
   unfold Evm.step; simp only [hop, hl, ↓reduceIte]
   simp only [hst, memOk_of_le hok, Bool.not_true, Bool.false_eq_true, ↓reduceIte]
-  exact ⟨_, rfl, ⟨touch_code .., touch_caller .., touch_value .., touch_this .., touch_calldata ..⟩,
+  exact ⟨_, rfl, ⟨touch_code .., touch_caller .., touch_value .., touch_this .., touch_calldata .., touch_isStatic .., touch_returndata ..⟩,
     by simp only [touch_pc], rfl, by simp only [touch_mem]⟩
 
 theorem evm_mstore8 (hop : (f.code[f.pc]?).getD 0 = 0x53) (hl : ¬ f.stack.length > 1024) {off v s}
@@ -365,7 +365,7 @@ theorem evm_mstore8 (hop : (f.code[f.pc]?).getD 0 = 0x53) (hl : ¬ f.stack.lengt
       f'.mem = Evm.writeBytes f.mem off [v % 256] := by
   unfold Evm.step; simp only [hop, hl, ↓reduceIte]
   simp only [hst, memOk_of_le hok, Bool.not_true, Bool.false_eq_true, ↓reduceIte]
-  exact ⟨_, rfl, ⟨touch_code .., touch_caller .., touch_value .., touch_this .., touch_calldata ..⟩,
+  exact ⟨_, rfl, ⟨touch_code .., touch_caller .., touch_value .., touch_this .., touch_calldata .., touch_isStatic .., touch_returndata ..⟩,
     by simp only [touch_pc], rfl, by simp only [touch_mem]⟩
 
 /-- MLOAD / MSTORE / MSTORE8 with too few operands -/
@@ -407,7 +407,7 @@ theorem copyToMem_ok {src : List Nat} {dst srcOff len : Nat} {s : List Nat}
       f'.mem = Evm.writeBytes f.mem dst (Evm.readBytes src srcOff len) := by
   unfold Evm.copyToMem
   simp only [memOk_of hok, Bool.not_true, Bool.false_eq_true, ↓reduceIte]
-  exact ⟨_, rfl, ⟨touch_code .., touch_caller .., touch_value .., touch_this .., touch_calldata ..⟩,
+  exact ⟨_, rfl, ⟨touch_code .., touch_caller .., touch_value .., touch_this .., touch_calldata .., touch_isStatic .., touch_returndata ..⟩,
     by simp only [touch_pc], rfl, by simp only [touch_mem]⟩
 
 theorem evm_calldatacopy (hop : (f.code[f.pc]?).getD 0 = 0x37) (hl : ¬ f.stack.length > 1024) {dst src len s}
@@ -434,6 +434,58 @@ theorem evm_copy_short {op : Nat} (hop : (f.code[f.pc]?).getD 0 = op) (h : op = 
      | [], _ => rfl
      | [_], _ => rfl
      | [_, _], _ => rfl)
+
+theorem evm_returndatasize (hop : (f.code[f.pc]?).getD 0 = 0x3d) (hl : ¬ f.stack.length > 1024) :
+    Evm.step p w f = .next w (Evm.push f f.returndata.length) := by
+  unfold Evm.step; simp only [hop, hl, ↓reduceIte]
+
+theorem evm_returndatacopy (hop : (f.code[f.pc]?).getD 0 = 0x3e) (hl : ¬ f.stack.length > 1024) {dst src len s}
+    (hst : f.stack = dst :: src :: len :: s) :
+    Evm.step p w f =
+      if src + len > f.returndata.length then .halt w .outOfBoundsRead
+      else Evm.copyToMem p w f s f.returndata dst src len := by
+  unfold Evm.step; simp only [hop, hl, ↓reduceIte]; simp only [hst]
+
+theorem evm_returndatacopy_short (hop : (f.code[f.pc]?).getD 0 = 0x3e) (hl : ¬ f.stack.length > 1024)
+    (hst : f.stack.length < 3) : Evm.step p w f = .halt w .stackUnderflow := by
+  unfold Evm.step; simp only [hop, hl, ↓reduceIte]
+  match h : f.stack, hst with
+  | [], _ => rfl
+  | [_], _ => rfl
+  | [_, _], _ => rfl
+
+/-! ### storage -/
+
+theorem evm_sload (hop : (f.code[f.pc]?).getD 0 = 0x54) (hl : ¬ f.stack.length > 1024) :
+    Evm.step p w f = Evm.op1 w f fun slot => Evm.lookupD w.storage (f.this, slot) := by
+  unfold Evm.step; simp only [hop, hl, ↓reduceIte]
+
+theorem evm_tload (hop : (f.code[f.pc]?).getD 0 = 0x5c) (hl : ¬ f.stack.length > 1024) :
+    Evm.step p w f = Evm.op1 w f fun slot => Evm.lookupD w.transient (f.this, slot) := by
+  unfold Evm.step; simp only [hop, hl, ↓reduceIte]
+
+theorem evm_sstore (hop : (f.code[f.pc]?).getD 0 = 0x55) (hl : ¬ f.stack.length > 1024) {slot v s}
+    (hst : f.stack = slot :: v :: s) :
+    Evm.step p w f =
+      if f.isStatic then .halt w .writeInStatic
+      else .next { w with storage := Evm.insert w.storage (f.this, slot) v } { f with stack := s, pc := f.pc + 1 } := by
+  unfold Evm.step; simp only [hop, hl, ↓reduceIte]; simp only [hst]
+
+theorem evm_tstore (hop : (f.code[f.pc]?).getD 0 = 0x5d) (hl : ¬ f.stack.length > 1024) {slot v s}
+    (hst : f.stack = slot :: v :: s) :
+    Evm.step p w f =
+      if f.isStatic then .halt w .writeInStatic
+      else .next { w with transient := Evm.insert w.transient (f.this, slot) v }
+        { f with stack := s, pc := f.pc + 1 } := by
+  unfold Evm.step; simp only [hop, hl, ↓reduceIte]; simp only [hst]
+
+theorem evm_store_short {op : Nat} (hop : (f.code[f.pc]?).getD 0 = op) (h : op = 0x55 ∨ op = 0x5d)
+    (hl : ¬ f.stack.length > 1024) (hst : f.stack.length < 2) : Evm.step p w f = .halt w .stackUnderflow := by
+  rcases h with rfl | rfl <;>
+    (unfold Evm.step; simp only [hop, hl, ↓reduceIte]
+     match h : f.stack, hst with
+     | [], _ => rfl
+     | [_], _ => rfl)
 
 end
 end HalmosVerif.Lemmas.Sevm
